@@ -35,6 +35,11 @@ CLAIMED = {
     text="Unbounded proof over queue length, frame numbers (modular order on the hyperframe circle, so the wrap is covered) and histories (fate invariant); schedules: proof modulo statement-level atomicity (ownership + interference obligations).",
     note="Trusted: PyVC builtin models; GIL atomicity of one attribute access / one locked region; threading.Lock is a mutex; queued FNs are valid (0..2715647); liveness half supplied by C09.",
     design="9/C03"),
+ "C12": dict(
+    technique="contract-based deductive verification: PyVC VCs from the live transceiver.py/ctrl_if_trx.py/fake_trx.py; loop invariant of power_event_handler over [self, *children] with a child list of symbolic length; clock links abstracted to a duplicate-free membership array; PWR invariant lemma over the handler's contract; z3",
+    text="Unbounded proof over the number of children, arbitrary prior power/hopping/queue state, both power directions, with/without own clock and running/stopped generator; port plan proved for symbolic base port and child index. Application wiring is a bounded stand-in (existing lists 0..2), labelled as such.",
+    note="Trusted: PyVC builtin models; CLCKGen.start/stop thread semantics; socket bind modelled as recording the address; children pairwise distinct.",
+    design="9/C12"),
 }
 NOT_YET = "check not built yet in this session (design in DESIGN.md section 9); will be claimed when its obligations are discharged"
 
